@@ -809,7 +809,12 @@ def unflatten(flat, shape, hint=None):
                 return (idx[0], idx[1])
         if not is_sym(flat) and not is_sym(nc):
             return (flat // nc, flat % nc)
-        return (lift(floordiv_nn(flat, nc)), lift(mod_nn(flat, nc)))
+        q, r = lift(floordiv_nn(flat, nc)), lift(mod_nn(flat, nc))
+        if is_sym(q):
+            # row index bound: flat < nrows*nc  =>  q < nrows  (saves the solver a non-linear step)
+            c = ctx()
+            c.assume(implies(and_(flat >= 0, flat < shape[0] * nc, nc > 0), q < shape[0]))
+        return (q, r)
     out = []
     rem = flat
     for k in range(len(shape) - 1, 0, -1):
@@ -839,12 +844,12 @@ def mod_nn(a, b):
     return r
 
 
-_DIVMOD_CACHE = {}
 
 
 def _divmod_nn(a, b):
     c = ctx()
-    key = (id(c), to_z3(a).get_id(), to_z3(b).get_id())
+    _DIVMOD_CACHE = c.divmod_cache
+    key = (to_z3(a).get_id(), to_z3(b).get_id())
     if key in _DIVMOD_CACHE:
         return _DIVMOD_CACHE[key][:2]
     if not is_sym(b):
@@ -852,12 +857,51 @@ def _divmod_nn(a, b):
         q, r = SymNum(A / b, "int"), SymNum(A % b, "int")
         _DIVMOD_CACHE[key] = (q, r, c)
         return q, r
+    dec = _decompose_affine(to_z3(a), to_z3(b))
     q = c.fresh("q", "int")
     r = c.fresh("r", "int")
+    if dec is not None:
+        # flat index syntactically of the form hi*b + lo: then (hi, lo) IS the (quotient, remainder)
+        # whenever 0 <= lo < b (uniqueness of Euclidean division); stated as a fact for the solver.
+        hi, lo = dec
+        c.assume(z3.Implies(z3.And(lo >= 0, lo < to_z3(b), hi >= 0), z3.And(q.t == hi, r.t == lo)))
     c.assume(z3.Implies(z3.And(to_z3(a) >= 0, to_z3(b) > 0), z3.And(to_z3(a) == q.t * to_z3(b) + r.t, r.t >= 0, r.t < to_z3(b), q.t >= 0)))
+    # small-dividend case stated explicitly (saves the solver a non-linear step)
+    c.assume(z3.Implies(z3.And(to_z3(a) >= 0, to_z3(a) < to_z3(b)), z3.And(q.t == 0, r.t == to_z3(a))))
     c.used_axioms.add("Euclidean division: a = q*b + r, 0 <= r < b (C-order flattening)")
     _DIVMOD_CACHE[key] = (q, r, c)
     return q, r
+
+
+def _decompose_affine(a, b):
+    """If z3 int term a is syntactically hi*b + lo, return (hi, lo) else None."""
+    a = z3.simplify(a)
+    if not z3.is_add(a):
+        if z3.is_mul(a):
+            hi = _mul_other(a, b)
+            if hi is not None:
+                return hi, z3.IntVal(0)
+        return None
+    kids = a.children()
+    for k, t in enumerate(kids):
+        if z3.is_mul(t):
+            hi = _mul_other(t, b)
+            if hi is not None:
+                rest = [x for j, x in enumerate(kids) if j != k]
+                lo = rest[0] if len(rest) == 1 else z3.Sum(rest)
+                return hi, lo
+    return None
+
+
+def _mul_other(t, b):
+    ks = t.children()
+    for k, x in enumerate(ks):
+        if x.eq(b):
+            rest = [y for j, y in enumerate(ks) if j != k]
+            if not rest:
+                return None
+            return rest[0] if len(rest) == 1 else z3.Product(rest)
+    return None
 
 
 def _as_scalar(v):
